@@ -82,6 +82,51 @@ theorem parse_build (enc : Bytes → Bytes) (dec : Bytes → Option Bytes) (ae :
   rw [finish_length enc ae.len _ hinv]
   exact fromFile_finish enc dec ae _ hinv hwf hfit hint
 
+/-- header size of a pack whose blobs are all compressed: the crypto overhead plus one 41-byte entry per blob -/
+theorem headerSize_all_compressed (bs : List IndexBlob) (hc : ∀ b ∈ bs, b.loc.ulen ≠ none) :
+    headerSize bs = Rustic.Gen.PACK_COMP_OVERHEAD + bs.length * Rustic.Gen.PACK_ENTRY_LEN_COMPRESSED := by
+  have key : ∀ (l : List IndexBlob) (acc : Nat), (∀ b ∈ l, b.loc.ulen ≠ none) →
+      l.foldl (fun acc b => acc + entryLen b) acc = acc + l.length * Rustic.Gen.PACK_ENTRY_LEN_COMPRESSED := by
+    intro l
+    induction l with
+    | nil => intro acc _; simp
+    | cons b l ih =>
+      intro acc h
+      have hb : entryLen b = Rustic.Gen.PACK_ENTRY_LEN_COMPRESSED := by
+        unfold entryLen
+        cases hu : b.loc.ulen with
+        | none => exact absurd hu (h b (List.mem_cons_self ..))
+        | some _ => rfl
+      rw [List.foldl_cons, ih _ (fun x hx => h x (List.mem_cons_of_mem _ hx)), hb, List.length_cons]
+      rw [Nat.add_mul, Nat.one_mul]; omega
+  exact key bs _ hc
+
+/-- (4-full) The FULLEST pack the packer writes: `PACKER_MAX_COUNT` blobs (the count limit of `BasicPacker::should_save`,
+regenerated from `blob/packer.rs`), every one compressed — so its header is the largest there is,
+`PACK_COMP_OVERHEAD + PACKER_MAX_COUNT · PACK_ENTRY_LEN_COMPRESSED` (410,032 bytes with the constants 32 / 10,000 / 41; strictly more than
+`COMP_OVERHEAD + MAX_COUNT · ENTRY_LEN`, the bound seed C08-4 put into `from_file` — third conjunct) — is read back by `from_file` for EVERY size
+hint.  Corollary of `parse_build`; replayed on the real `from_file` by the `packn … max … c` cases and on a real repository by
+`repair fullpack`. -/
+theorem full_pack_header_parses (enc : Bytes → Bytes) (dec : Bytes → Option Bytes) (ae : AE enc dec)
+    (t : BlobType) (adds : List (Bytes × Nat × Option Nat))
+    (hfull : ((Packer.new t).run adds).blobs.length = Rustic.Gen.PACKER_MAX_COUNT)
+    (hcomp : ∀ b ∈ ((Packer.new t).run adds).blobs, b.loc.ulen ≠ none)
+    (hwf : ∀ b ∈ ((Packer.new t).run adds).blobs, WFBlob b)
+    (hfit : packSize ((Packer.new t).run adds).blobs < 4294967296) (hint : Option Nat) :
+    fromFile dec (((Packer.new t).run adds).finish enc).1 hint (((Packer.new t).run adds).finish enc).1.length
+        = .ok (((Packer.new t).run adds).finish enc).2 ∧
+    headerSize (((Packer.new t).run adds).finish enc).2
+        = Rustic.Gen.PACK_COMP_OVERHEAD + Rustic.Gen.PACKER_MAX_COUNT * Rustic.Gen.PACK_ENTRY_LEN_COMPRESSED ∧
+    Rustic.Gen.PACK_COMP_OVERHEAD + Rustic.Gen.PACKER_MAX_COUNT * Rustic.Gen.PACK_ENTRY_LEN
+        < headerSize (((Packer.new t).run adds).finish enc).2 := by
+  have hs : headerSize ((Packer.new t).run adds).blobs
+      = Rustic.Gen.PACK_COMP_OVERHEAD + Rustic.Gen.PACKER_MAX_COUNT * Rustic.Gen.PACK_ENTRY_LEN_COMPRESSED := by
+    rw [headerSize_all_compressed _ hcomp, hfull]
+  refine ⟨parse_build enc dec ae t adds hwf hfit hint, hs, ?_⟩
+  show _ < headerSize ((Packer.new t).run adds).blobs
+  rw [hs]
+  decide
+
 /-- (4') Whatever `from_file` accepts is consistent with the sizes it was given: the blobs it returns compute
 to exactly the stated pack size (so a header can never be accepted for a file of a different length). -/
 theorem from_file_ok_sizes (dec : Bytes → Option Bytes) (file : Bytes) (hint : Option Nat) (ps : Nat)
